@@ -69,6 +69,59 @@ def run_one(job):
         shutil.rmtree(d, ignore_errors=True)
 
 
+EARLY = '''import sys, os, json
+import pysnark.runtime as rt
+from pysnark.runtime import PrivVal, PubVal
+x = PrivVal(3); y = x * x
+(y + 1).val()
+rt.backend.prove()                      # an explicit prove() in the middle of the script
+%(tail)s
+import pysnark.snarkjsbackend as be
+json.dump(dict(npub=len(be.pubvals), npriv=len(be.privvals), ncons=len(be.constraints)), open("trace.json", "w"))
+'''
+EARLY_TAILS = [("nothing", "pass"), ("new-public-value", "a = PubVal(7)"), ("new-values-linear-ops", "a = PubVal(7); b = PrivVal(5); c = a + b * 3"),
+               ("new-constraint", "b = PrivVal(5); c = b * y"), ("files-removed", "os.remove('witness.wtns'); os.remove('circuit.r1cs')"),
+               ("new-values-then-exit0", "a = PubVal(7); b = PrivVal(2); sys.exit(0)")]
+
+
+def run_early(tail):
+    """a script that calls prove() itself before its end: the artefacts left at exit describe the WHOLE trace"""
+    d = common.scratch("pysnark-verif-exit-")
+    try:
+        open(os.path.join(d, "s.py"), "w").write(EARLY % dict(tail=tail[1]))
+        env = common.impl_env({"PYSNARK_BACKEND": "snarkjs"})
+        r = subprocess.run([common.PY, "s.py"], cwd=d, env=env, stdout=subprocess.PIPE, stderr=subprocess.PIPE, text=True, timeout=120)
+        out = dict(status=r.returncode, tail=tail[0])
+        tp = os.path.join(d, "trace.json")
+        if tail[0].endswith("exit0"): out["trace"] = dict(npub=2, npriv=3, ncons=2)      # the script ends before writing trace.json
+        elif os.path.exists(tp): out["trace"] = json.load(open(tp))
+        try:
+            rr = decoders.decode_r1cs(open(os.path.join(d, "circuit.r1cs"), "rb").read())
+            pr, vals = decoders.decode_wtns(open(os.path.join(d, "witness.wtns"), "rb").read())
+            out["file"] = dict(nwires=rr["nwires"], npubout=rr["npubout"], ncons=len(rr["cons"]), nvals=len(vals))
+        except Exception as e:
+            out["file_error"] = "%s: %s" % (type(e).__name__, str(e)[:150])
+        return out
+    finally:
+        shutil.rmtree(d, ignore_errors=True)
+
+
+def early_prove_violations(stats):
+    viol = []
+    with ThreadPoolExecutor(common.NPROC) as ex:
+        res = list(ex.map(run_early, EARLY_TAILS))
+    for r in res:
+        stats["early-prove-runs"] += 1
+        case = dict(mode="explicit prove() mid-script, then: " + r["tail"], backend="snarkjs", autoprove=True)
+        def bad(key, what): viol.append(dict(kind="oracle", op="exit", key=key, what=what, case=case, observed=r))
+        if r["status"] != 0: bad("early-prove:status", "script with an explicit prove() ended with status %d" % r["status"]); continue
+        if "file_error" in r or "trace" not in r: bad("early-prove:no-artefacts", "after a successful script with an explicit prove() the artefacts are missing or undecodable: %s" % r.get("file_error")); continue
+        t, f_ = r["trace"], r["file"]
+        want = dict(nwires=1 + t["npub"] + t["npriv"], npubout=t["npub"], ncons=t["ncons"], nvals=1 + t["npub"] + t["npriv"])
+        if f_ != want: bad("early-prove:incomplete-trace", "the artefacts left at exit describe %r, the trace at the end of the script is %r" % (f_, want))
+    return viol
+
+
 def run(tier, seed):
     t0 = time.time()
     tr_ok, tr_msg = common.translate()
@@ -118,6 +171,7 @@ def run(tier, seed):
             if produced or res["calls"]: bad("artefacts-with-autoprove-off", "automatic proving is off but artefacts were produced")
             if res["hook_traceback"]: bad("exit-hook-failed", "the exit hook raised with automatic proving off: " + res["stderr_tail"][-160:])
         rows.append((coqmode, autoprove, res["calls"] >= 1, res["status"]))
+    viol += early_prove_violations(stats)
     # the decision model reproduces what was observed (prove ran / status) for every run
     body = "; ".join("(%s, %s, %s, %d)" % (m, "true" if a else "false", "true" if c else "false", s if s >= 0 else 128 - s) for m, a, c, s in rows)
     v = ("From Coq Require Import ZArith List Bool.\nFrom PySnark.Model Require Import Util ExitHook.\nImport ListNotations.\nOpen Scope Z_scope.\n"
